@@ -191,6 +191,7 @@ def main():
              'doubled and quadrupled fields; small-scope enumerations for parse_header (length <= 4/5 over 8 characters), the domain regex and the Content-Type regex '
              '(token strings); non-trivial = distinct canonical outcome',
         trusted=['Lean 4.33 kernel', 'axioms: propext, Classical.choice, Quot.sound only',
+                 'tools/translate/domains2lean.py, gettexthdr2lean.py, hdrchk2lean.py over chktr.py + pytr (the translated subset and the Python-operation kit Model/HdrPy.lean, PyKit.lean: see DESIGN-notes/hdr.md)',
                  'tools/translate/hdr2lean.py (header-field registry, decorator registry, special-use domain alternatives enumerated from the sre tree, compared constants, '
                  'regex texts, re classes and str.splitlines breaks of the running interpreter, names of the unusual characters, tag names per method)',
                  'library results are inputs of the model: email.utils.parseaddr, urllib.parse.urlparse(...).scheme, difflib.get_close_matches, str.lower, and the '
@@ -200,6 +201,10 @@ def main():
         explanation=EXPLANATION)
 
 EXPLANATION = (
+    'TIE BY TRANSLATION (Props/C15Tie.lean): lib/domains.py (all functions), gettext.parse_header, Checker.check_project, check_translator, check_comments and '
+    'check_mime (with the charset fragment through C20 model functions) are regenerated from the current source on every run and proved equal, for all inputs, to the '
+    'model definitions the theorems below are about (generated_*_eq_model + the headline theorems restated about the regenerated definitions); the regenerated '
+    'definitions also run against the real code in the *-generated streams. check_headers is not translated yet (correspondence only). '
     'Proved for ALL files (Props/C15.lean): header_tags_eq - whenever the header stages return, the set of (tag, extras) the imperative model '
     'of check_comments / check_headers / check_mime / check_dates / check_project / check_translator emits equals Spec.HeaderRules.Reported '
     '(Appendix A, one clause per tag), for any entries, any header text (any lines, multiplicity, order), any comments, PO / POT / MO and every '
